@@ -61,6 +61,8 @@ pub fn replay_kind(kind: &str, j: &serde_json::Value) -> Option<Vec<String>> {
         "reuse" => Some(util::replay_reuse(j)),
         "threads" => Some(c01::replay_threads(j)),
         "xcase" => Some(c05::replay_xcase(j)),
+        "entry" => Some(c03::replay_entry(j)),
+        "entry_points" => Some(c16::replay_entry_points(j)),
         _ => None,
     }
 }
